@@ -54,9 +54,46 @@ def m_enumerate(I, st, fn, ce, args, line, depth, dest_ty, may_unwind):
     return [("ret", _iter("enumerate", [args[0], Const(0)]), st)]
 
 
+def m_take(I, st, fn, ce, args, line, depth, dest_ty, may_unwind):
+    it = args[0]
+    if not (it[0] == "agg" and it[1] == "iter") or args[1][0] != "const":
+        return None
+    return [("ret", _iter("take", [it, args[1]]), st)]
+
+
+def m_skip(I, st, fn, ce, args, line, depth, dest_ty, may_unwind):
+    it = args[0]
+    if not (it[0] == "agg" and it[1] == "iter") or args[1][0] != "const" or it[2] not in ("ref", "val"):
+        return None
+    v, pos = it[4]
+    hi = v[4][1][1]
+    return [("ret", _iter(it[2], [v, Const(min(hi, pos[1] + args[1][1]))]), st)]
+
+
+def m_rev(I, st, fn, ce, args, line, depth, dest_ty, may_unwind):
+    it = args[0]
+    if not (it[0] == "agg" and it[1] == "iter") or it[2] not in ("ref", "val"):
+        return None
+    v, pos = it[4]
+    return [("ret", _iter("rev:" + it[2], [v, pos, v[4][1]]), st)]
+
+
 def _next(I, st, it):
     """returns (new_iter, item or None)"""
     kind = it[2]
+    if kind == "take":
+        inner, left = it[4]
+        if left[1] <= 0:
+            return it, None
+        ni, item = _next(I, st, inner)
+        return _iter("take", [ni, Const(left[1] - 1)]), item
+    if kind.startswith("rev:"):
+        v, lo, hi = it[4]
+        if hi[1] <= lo[1]:
+            return it, None
+        el = elem_loc(v[2], hi[1] - 1)
+        item = Ref(el) if kind == "rev:ref" else I.load(st, el)
+        return _iter(kind, [v, lo, Const(hi[1] - 1)]), item
     if kind in ("ref", "val"):
         v, pos = it[4]
         lid, hi = v[2], v[4][1][1]
@@ -92,7 +129,7 @@ def m_next(I, st, fn, ce, args, line, depth, dest_ty, may_unwind):
 def m_for_each(I, st, fn, ce, args, line, depth, dest_ty, may_unwind):
     it = args[0]
     if not (it[0] == "agg" and it[1] == "iter"):
-        return None
+        return interp.m_for_each_opaque(I, st, fn, ce, args, line, depth, dest_ty, may_unwind)
     outs = []
     cur = [(it, st)]
     while cur:
@@ -154,6 +191,12 @@ def install():
     M["<&'a std::vec::Vec<T, A> as std::iter::IntoIterator>::into_iter"] = m_iter(False)
     M["<std::vec::Vec<T, A> as std::iter::IntoIterator>::into_iter"] = m_iter(True)
     M["std::iter::Iterator::enumerate"] = m_enumerate
+    M["std::iter::Iterator::take"] = m_take
+    M["std::iter::Iterator::skip"] = m_skip
+    M["std::iter::Iterator::rev"] = m_rev
+    M["<std::iter::Take<I> as std::iter::Iterator>::next"] = m_next
+    M["<std::iter::Rev<I> as std::iter::Iterator>::next"] = m_next
+    M["std::iter::Iterator::for_each"] = m_for_each
     M["<std::slice::Iter<'a, T> as std::iter::Iterator>::next"] = m_next
     M["<std::vec::IntoIter<T, A> as std::iter::Iterator>::next"] = m_next
     M["<std::iter::Enumerate<I> as std::iter::Iterator>::next"] = m_next
